@@ -285,7 +285,7 @@ func match(toks []templang.Tok, items []item) (ok bool, why string) {
 		it := c.items[c.i]
 		switch t.T {
 		case "word", "val", "rawtext":
-			want := t.N
+			want := templang.WordText(t.N)
 			if t.T == "val" {
 				want = templang.ExprValues[t.N]
 			} else if t.T == "rawtext" {
